@@ -23,7 +23,7 @@ RULE = ("fault enumeration: one fresh interpreter per (termination mode x statem
         "mixes products with assert_ne / assert_nonzero / comparisons / secret divisions / bit decompositions. Oracle: the exit status is the one plain Python gives for that termination; status 0 and autoprove on => "
         "prove ran exactly once and the artefacts decode (independent decoders) to exactly the constraints of the "
         "statements executed; uncaught exception or status != 0 => prove did not run and no artefact exists; autoprove "
-        "off => no artefact and no traceback from the exit hook on stderr. Non-trivial = termination before the end by a "
+        "off => no artefact and no traceback from the exit hook on stderr, also when the script assigns runtime.operation (prove / keygen / verify, as the libsnark examples do) on a backend that has no use for it. Non-trivial = termination before the end by a "
         "failing mode, or a complete run; distinct by (mode, position, N, backend, autoprove). quick: N=3, positions "
         "{0,1,3}; thorough: every position for N in 1..6 (the space is finite and enumerated completely).")
 
@@ -86,7 +86,7 @@ STATEMENTS = {
 }
 
 
-def script(mode, k, n, autoprove, flavour="mul", chdir=False):
+def script(mode, k, n, autoprove, flavour="mul", chdir=False, operation=None):
     term = MODES[mode][0]
     stm = STATEMENTS[flavour]
     prelude = MODES[mode][3] if len(MODES[mode]) > 3 else "pass"
@@ -116,6 +116,8 @@ def script(mode, k, n, autoprove, flavour="mul", chdir=False):
          "    open('executed', 'a').write('s' * k)",
          "    open('counts', 'w').write(json.dumps(_cnt))",
          "rt.autoprove = %s" % (False if autoprove == "off-then-on" else autoprove),
+         # the libsnark examples set runtime.operation ("keygen"/"prove"/"verify"); other backends have no use for it
+         "rt.operation = %r" % operation if operation is not None else "pass",
          "import builtins",
          "if not hasattr(builtins, 'exit'): site.setquit()"]
     if n > 50:
@@ -152,7 +154,7 @@ def run_case(case, tmp):
             os.remove(os.path.join(tmp, f))
     flavour = case.get("flavour", "mul")
     chdir = bool(case.get("chdir"))
-    open(os.path.join(tmp, "prog.py"), "w").write(script(mode, k, n, autoprove, flavour, chdir))
+    open(os.path.join(tmp, "prog.py"), "w").write(script(mode, k, n, autoprove, flavour, chdir, case.get("operation")))
     envv = dict(os.environ)
     envv.update({"PYSNARK_BACKEND": backend, "QAPTOOLS_BIN": os.path.join(backends.SHIMS, "qapbin"),
                  "PYTHONPATH": backends.REPO + os.pathsep + os.path.join(backends.SHIMS, "fb") + core.COVPATH,
@@ -309,6 +311,8 @@ def run(ctx):
                 cases.append({"mode": mode, "k": k, "n": n + 5 if ctx.tier == "quick" else n + 2, "backend": backend, "autoprove": ap, "flavour": "mixed"})
             if ap and k in (0, n):
                 cases.append({"mode": mode, "k": k, "n": n, "backend": backend, "autoprove": "off-then-on"})
+            if k in (0, n):
+                cases.append({"mode": mode, "k": k, "n": n, "backend": backend, "autoprove": ap, "operation": ["prove", "keygen", "verify"][(k + len(mode)) % 3]})
             if k == n and ap and backend != "qaptools":      # qaptools opens its (relative) work files when it is initialised
                 cases.append({"mode": mode, "k": k, "n": n, "backend": backend, "autoprove": ap, "chdir": True})
     jobs = [dict(cases=cases[i::16]) for i in range(16)]
